@@ -57,6 +57,65 @@ def case_sens(B, cfg):
         B.eq('sens[sigma %d]=dL/dsigma' % i, sens[P + i], g[n + i])
 
 
+def case_seq(B, cfg):
+    """evaluations in a row on one model instance, with the caller's
+    containers (observations, model outputs, parameters) re-used and updated
+    in place between the calls: every evaluation is the documented density of
+    the values the containers hold at that moment."""
+    name, n = cfg['model'], cfg['n']
+    m = refs.error_model(name)
+    k = refs.em_nparams(name)
+    dt = object if B.symbolic else float
+    rounds = []
+    for r in range(2):
+        par = B.vars('sigma%d_' % r, k)
+        yb = B.vars('ybar%d_' % r, n)
+        y = B.vars('y%d_' % r, n)
+        refs.em_assume_support(B, name, par, yb, y)
+        rounds.append((par, yb, y))
+    cpar = np.array(rounds[0][0], dtype=dt)
+    cyb = np.array(rounds[0][1], dtype=dt)
+    cy = np.array(rounds[0][2], dtype=dt)
+    S = np.array([[B.var('S%d' % j)] for j in range(n)], dtype=dt)
+    # which containers change between the calls
+    plan = cfg['plan']
+    cur = [list(x) for x in rounds[0]]
+    for step, (what, change) in enumerate(plan):
+        for c in change:
+            idx = 'pby'.index(c)
+            cont = (cpar, cyb, cy)[idx]
+            cont[:] = np.array(rounds[1][idx], dtype=dt)
+            cur[idx] = list(rounds[1][idx])
+        par, yb, y = cur
+        ref = [refs.em_logpdf(B, name, par, yb[j], y[j]) for j in range(n)]
+        tot = sum(ref[1:], ref[0])
+        tag = 'call %d (%s)' % (step, what)
+        if what == 'value':
+            B.eq('%s: value = documented density of the current contents'
+                 % tag, m.compute_log_likelihood(cpar, cyb, cy), tot)
+        elif what == 'pointwise':
+            pw = m.compute_pointwise_ll(cpar, cyb, cy)
+            for j in range(n):
+                B.eq('%s: pointwise[%d] = documented' % (tag, j), pw[j],
+                     ref[j])
+        else:
+            score, sens = m.compute_sensitivities(cpar, cyb, S, cy)
+            B.eq('%s: S1 score = documented' % tag, score, tot)
+            # (a fresh instance on fresh containers is the exact gradient:
+            # case_sens)
+            _, sens2 = refs.error_model(name).compute_sensitivities(
+                list(par), list(yb), np.array(S), list(y))
+            B.fact('%s: sens length' % tag, np.shape(sens) == (1 + k,))
+            for i in range(min(len(sens), 1 + k)):
+                B.eq('%s: sens[%d] = that of a fresh instance on fresh '
+                     'containers' % (tag, i), sens[i], sens2[i])
+    for cont, orig in ((cpar, cur[0]), (cyb, cur[1]), (cy, cur[2])):
+        B.fact('caller-owned container left as the caller set it',
+               all(a is b or a == b for a, b in zip(list(cont), orig))
+               if not B.symbolic else
+               all(a is b for a, b in zip(list(cont), orig)))
+
+
 def case_norm(B, cfg):
     """pointwise_ll(g(eps)) + log g'(eps) = log phi(eps), g' > 0, g affine
     (or log g affine) in eps: the density is the push-forward of N(0,1)
@@ -120,6 +179,16 @@ def jobs(tier):
                 out.append(('sens', 'case_sens',
                             dict(model=name, n=n, P=P), {}))
         out.append(('norm', 'case_norm', dict(model=name), {}))
+        plans = [[('value', ''), ('value', 'y')],
+                 [('value', ''), ('value', 'b'), ('value', 'p')],
+                 [('pointwise', ''), ('pointwise', 'y'), ('value', '')],
+                 [('value', ''), ('sens', 'y'), ('value', 'bp')],
+                 [('sens', ''), ('sens', 'p'), ('pointwise', 'yb')],
+                 [('pointwise', ''), ('value', 'yb'), ('sens', '')]]
+        for n in (1, 2):
+            for plan in plans:
+                out.append(('seq', 'case_seq',
+                            dict(model=name, n=n, plan=plan), {}))
         k = refs.em_nparams(name)
         for n in ns[:3]:
             nw = k + (n if name == 'LogNormal' else 0)
